@@ -1354,6 +1354,19 @@ func (h *harness) step(line string) (event, error) {
 			sort.Ints(upd)
 			sort.Ints(rst)
 			sort.Ints(add)
+			// payload contracts of the history-level theorems (Pk/Props/C10Reach.lean `ImportStoresChanged`,
+			// Pk/Props/C06Reach.lean `ImportAddsNew`): every stream the import changed or added is stored in a file it created
+			stored := map[int]bool{}
+			for _, fr := range fresh {
+				for _, id := range fr["ids"].([]int) {
+					stored[id] = true
+				}
+			}
+			for _, id := range append(append(append([]int(nil), upd...), rst...), add...) {
+				if !stored[id] {
+					h.complain("C10", "import changed or added stream %d but no index file it created holds it", id)
+				}
+			}
 			ev["processed"], ev["created"], ev["upd"], ev["rst"], ev["add"] = processed, fresh, upd, rst, add
 			ev["usednew"] = int(st.NextStreamID) - int(before.NextStreamID)
 		case "tag":
